@@ -146,7 +146,7 @@ def _move_shape(ctx: Ctx, fi: FuncInfo, kind: str, C: dict[str, int]) \
         ctx.ob("D1.2", fi, u.node or fi.node, False,
                f"cannot summarise: {u}", construct=f"{name} size")
         return
-    i1 = Poly.var("i1")
+    i1 = Poly.var(fi.params[-1])
     arr = fi.params[0]
     c1, c2 = ("IDX_BOTTOM_Y", "IDX_TOP_Y") if kind == "down" else (
         "IDX_LEFT_X", "IDX_RIGHT_X")
@@ -327,7 +327,7 @@ def _move_lemma(ctx: Ctx, fi: FuncInfo, kind: str, C: dict[str, int],
     term, init, guard = M[4], M[5], M[6]
     T = mk_ite(guard, term, INF) if guard != ("true",) else term
     arr = fi.params[0]
-    i1, k0 = Poly.var("i1"), kvar(0)
+    i1, k0 = Poly.var(fi.params[-1]), kvar(0)
     names = {}
     for nm, row in (("1", i1), ("0", k0)):
         for cn, short in (("IDX_LEFT_X", "L"), ("IDX_BOTTOM_Y", "B"),
